@@ -976,28 +976,52 @@ Proof.
   cbn [check_skill_sets] in H. rewrite forallb_forall in H. apply zmem_In. apply H. exact Hx.
 Qed.
 
-(* merged candidates without a oneOf requirement are served by every vehicle that may serve the source ... *)
-Theorem merge_skills_sound_without_one_of : forall vs src cand,
-  merge_skills src cand = true -> SkillsSat vs (req_of src) -> r_one (req_of cand) = [] -> SkillsSat vs (req_of cand).
+(* SOUNDNESS of the merge rule (after the repair of C01-F10): the merged job keeps the SOURCE's skills; every vehicle that meets
+   the source's requirement meets the candidate's.  The source record must not carry an EMPTY oneOf set (JobSkills::new, which the
+   problem reader uses, never builds one: js_new_normal) *)
+Theorem merge_skills_sound : forall vs src cand,
+  merge_skills src cand = true -> (forall s, src = Some s -> js_one s <> Some []) ->
+  SkillsSat vs (req_of src) -> SkillsSat vs (req_of cand).
 Proof.
-  intros vs src cand Hm (S1 & S2 & S3) Ho. destruct cand as [c|].
-  - destruct src as [s|]; [|discriminate]. cbn [merge_skills] in Hm.
+  intros vs src cand Hm Hn (S1 & S2 & S3). destruct cand as [c|].
+  - destruct src as [s|]; [|discriminate]. cbn [merge_skills] in Hm. specialize (Hn s eq_refl).
     apply andb_true_iff in Hm as [Hm M3]. apply andb_true_iff in Hm as [M1 M2].
     unfold SkillsSat in *. cbn [req_of r_all r_one r_none] in *. split; [|split].
     + intros x Hx. apply S1. apply (check_skill_sets_subset _ _ M1). exact Hx.
-    + left. exact Ho.
+    + destruct (js_one c) as [co|] eqn:Ec; cbn [olist]; [|left; reflexivity].
+      destruct (js_one s) as [so|] eqn:Es; cbn [check_one_of_sets check_skill_sets olist] in *; [|discriminate].
+      right. destruct S2 as [->|(x & Hx & Hin)]; [congruence|].
+      exists x. split; [|exact Hin]. rewrite forallb_forall in M2. apply zmem_In. apply M2. exact Hx.
     + intros x Hx. apply S3. apply (check_skill_sets_subset _ _ M3). exact Hx.
   - unfold SkillsSat, req_of, no_req. cbn. split; [intros s []|]. split; [left; reflexivity|intros s []].
 Qed.
 
-(* ... with a oneOf requirement they need not be: the rule asks candidate.oneOf to be a SUBSET of source.oneOf *)
-Theorem merge_skills_one_of_refuted : exists vs src cand,
-  merge_skills src cand = true /\ eval_route_skills vs src = None /\ SkillsSat (olist vs) (req_of src) /\
-  eval_route_skills vs cand = Some (CODE_SKILLS, true) /\ ~ SkillsSat (olist vs) (req_of cand).
+(* in terms of the evaluator: a vehicle the route-level test accepts for the merged (= source) record satisfies the candidate *)
+Corollary merge_skills_accepted_sound : forall vs src cand,
+  merge_skills src cand = true -> (forall s, src = Some s -> js_one s <> Some []) ->
+  eval_route_skills vs src = None -> SkillsSat (olist vs) (req_of cand).
+Proof. intros vs src cand Hm Hn He. apply (merge_skills_sound _ src); [exact Hm|exact Hn|apply route_skills_sound; exact He]. Qed.
+
+(* the rule BEFORE the repair asked candidate.oneOf to be a subset of source.oneOf: source {1,2}, candidate {1}, vehicle {2}
+   (finding C01-F10, repaired by /repo commit ee5718d); the repaired rule refuses that pair *)
+Theorem merge_skills_one_of_prefix_refuted : exists vs src cand,
+  merge_skills_prefix src cand = true /\ eval_route_skills vs src = None /\ SkillsSat (olist vs) (req_of src) /\
+  eval_route_skills vs cand = Some (CODE_SKILLS, true) /\ ~ SkillsSat (olist vs) (req_of cand) /\
+  merge_skills src cand = false.
 Proof.
   exists (Some [2]), (Some (mkJS None (Some [1; 2]) None)), (Some (mkJS None (Some [1]) None)).
   split; [reflexivity|]. split; [reflexivity|]. split; [apply route_skills_sound; reflexivity|]. split; [reflexivity|].
+  split; [|reflexivity].
   intros (_ & [H|(s & Hs & Hin)] & _); cbn in *; [discriminate|]. destruct Hs as [<-|[]]. destruct Hin as [H|[]]. discriminate.
+Qed.
+
+(* the side condition is needed: an EMPTY oneOf set in the source (public fields only) is a subset of everything *)
+Theorem merge_skills_empty_one_of_witness :
+  let src := Some (mkJS None (Some []) None) in let cand := Some (mkJS None (Some [1]) None) in
+  merge_skills src cand = true /\ eval_route_skills None src = None /\ ~ SkillsSat [] (req_of cand).
+Proof.
+  cbn. split; [reflexivity|]. split; [reflexivity|].
+  intros (_ & [H|(s & _ & [])] & _). discriminate.
 Qed.
 
 (* an EMPTY oneOf set (not produced by JobSkills::new, but the fields are public): rejected for a vehicle with a skills
